@@ -183,6 +183,11 @@ func (r *Reconciler) Reconcile(ctx context.Context, request reconcile.Request) (
 
 func (r *Reconciler) buildStrategyParams(logger logr.Logger, daemonset *datadoghqv1alpha1.ExtendedDaemonSet, replicaset *datadoghqv1alpha1.ExtendedDaemonSetReplicaSet) (*strategy.Parameters, error) {
 	rsStatus := retrieveReplicaSetStatus(daemonset, replicaset.Name)
+	if rsStatus == strategy.ReplicaSetStatusCanary && daemonset.Spec.Strategy.Canary == nil {
+		// A canary needs the canary strategy: once spec.strategy.canary has been removed, the ReplicaSet that the (not
+		// yet refreshed) status still names as canary is on hold until the ExtendedDaemonSet controller promotes it.
+		rsStatus = strategy.ReplicaSetStatusUnknown
+	}
 
 	// Retrieve the Node associated to the replicaset (with node selector)
 	nodeList, podList, err := r.getPodAndNodeList(logger, daemonset, replicaset)
